@@ -73,7 +73,9 @@ pub struct Inst {
     /// JSON rendering choices (do not change the meaning): bit0 omit `forbidDeadHeadTrips` when
     /// false, bit1 write `null` instead of omitting optional keys, bit2 omit `maintenanceSlots`
     /// when empty, bit3 omit `parameters.maintenance` when maxDist = 0, bit4 omit
-    /// `costs.maintenance` when 0, bit5 add ignored keys (dayLimit, dayLimitThreshold)
+    /// `costs.maintenance` when 0, bit5 add ignored keys (dayLimit, dayLimitThreshold),
+    /// bit6 route-segment ids are only unique per route (`s<j>` in every route; the loader resolves
+    /// `routeSegment` inside the departure's own route)
     pub render: u64,
     /// id namespace (C18: disjoint ids per request)
     pub prefix: String,
@@ -135,7 +137,11 @@ impl Inst {
         format!("{}r{}", self.prefix, i)
     }
     pub fn rseg_id(&self, r: usize, j: usize) -> String {
-        format!("{}r{}_s{}", self.prefix, r, j)
+        if self.render & 64 != 0 {
+            format!("{}s{}", self.prefix, j)
+        } else {
+            format!("{}r{}_s{}", self.prefix, r, j)
+        }
     }
     pub fn dep_id(&self, i: usize) -> String {
         format!("{}d{}", self.prefix, i)
@@ -825,7 +831,7 @@ pub fn gen_instance(rng: &mut Rng, p: &Profile) -> Inst {
         c_maint: *rng.pick(&[0u64, 0, 2, 30]),
         c_dh: *rng.pick(&[0u64, 1, 7, 100]),
         c_idle: *rng.pick(&[0u64, 1, 3, 20]),
-        render: rng.below(64),
+        render: rng.below(128),
         prefix: String::new(),
     }
 }
